@@ -106,6 +106,19 @@
              AssertionError (msg not evaluated: the translator accepts only messages
              that cannot fail); `raise E(msg)` likewise for TypeError / ValueError.
              `continue`, `return` inside `for`.
+   ints      a + b, a - b, max(a, b), min(a, b), a < b, a <= b, a > b, a >= b on ints
+             (anything else: OUnsup).
+   not modelled, but translated (so that a body using them is a program whose
+             run leaves the fragment -- OUnsup -- instead of a translation failure):
+             `x.all` (the shadow list of a TexArgs: the tree has no such field; the
+             pinned property TexExpr.all likewise), the list methods append [modelled
+             on a raw list] / remove / pop / clear / reverse and every list method on
+             a TexArgs object (class TexArgs is translated by gen_args.py, ArgDSL.v),
+             `l[i] = v` / `l[a:b] = v` on a list object (SStoreItem).
+   source    gen_edit.py normalises the Python AST before translating (annotations,
+             module-level literal constants and small helper functions inlined,
+             f-strings, list(x.contents), if/else of one assignment, structured
+             control flow: see its header) -- each rewrite an identity of Python.
    outcomes  ODone st r: finished inside the fragment, in state st, returning a value
              or raising (the tree in st is the tree at that moment: an exception
              after a mutation leaves the mutated tree, Edit.Partial).  OUnsup:
@@ -196,14 +209,16 @@ Definition is_texexpr (e : Tree.expr) : bool :=
 (* ------------------------------------------------------------------ syntax *)
 Inductive attr :=
 | A_expr | A_parent | A_args | A_raw (* _contents *) | A_contents | A_name | A_string
-| A_begin | A_end | A_text (* _text *) | A_begin_raw | A_end_raw (* _begin / _end *).
+| A_begin | A_end | A_text (* _text *) | A_begin_raw | A_end_raw (* _begin / _end *)
+| A_all (* the shadow list TexArgs.all / the property TexExpr.all: not modelled *).
 
 Inductive mname :=
 | M_append | M_insert | M_remove | M_delete | M_replace | M_replace_with | M_copy
 | M_supports | M_assert_supports | M_str
 | M_get (a : attr) | M_set (a : attr).
 
-Inductive lop := LExtend | LInsert | LIndex.
+Inductive lop := LExtend | LInsert | LIndex | LAppend | LRemove | LPop | LClear | LReverse.
+Inductive cmpop := CLt | CLe | CGt | CGe.
 Inductive pat := PVar (x : nat) | PPair (i x : nat).
 Inductive fpiece := FLit (s : str) | FHole.
 
@@ -222,6 +237,9 @@ Inductive expr :=
 | EOr (a b : expr)
 | EIfExp (c a b : expr)
 | EAdd (a b : expr)
+| ESub (a b : expr)
+| ECmp (o : cmpop) (a b : expr)               (* < <= > >= on ints *)
+| EMinMax (mx : bool) (a b : expr)            (* max(a, b) / min(a, b) on ints *)
 | EListLit (xs : exprs)
 | EListOf (e : expr)                          (* list(e) *)
 | EEnumerate (e : expr)
@@ -262,6 +280,7 @@ Inductive stmt :=
 | SAssign (x : nat) (e : expr)
 | SSetAttr (o : expr) (a : attr) (e : expr)   (* o.a = e *)
 | SDelItem (l i : expr)                       (* del l[i] *)
+| SStoreItem (l e : expr)                     (* l[..] = e: not modelled *)
 | SReturn (e : expr)
 | SIf (c : expr) (a b : block)
 | SFor (p : pat) (it : expr) (b : block)
@@ -591,6 +610,12 @@ Definition list_op (st : state) (l : value) (o : lop) (vs : list value) : option
     match holder st r, to_items st new with
     | Some (p, h), Some xs =>
       option_map (fun st' => (st', RVal VNone)) (set_body_st st p h (body_of h ++ xs))
+    | _, _ => None
+    end
+  | VBody r, LAppend, [x] =>
+    match holder st r, to_item st x with
+    | Some (p, h), Some it =>
+      option_map (fun st' => (st', RVal VNone)) (set_body_st st p h (body_of h ++ [it]))
     | _, _ => None
     end
   | VBody r, LInsert, [VInt i; x] =>
@@ -1024,6 +1049,27 @@ Fixpoint eval (e : expr) (en : env) (st : state) {struct e} : eres :=
       | VList x, VList y => EV (VList (x ++ y)) st2
       | _, _ => EUnsup
       end)
+  | ESub a b =>
+    bin a b (fun v1 v2 st2 =>
+      match v1, v2 with
+      | VInt x, VInt y => EV (VInt (x - y)) st2
+      | _, _ => EUnsup
+      end)
+  | ECmp o a b =>
+    bin a b (fun v1 v2 st2 =>
+      match v1, v2 with
+      | VInt x, VInt y =>
+        EV (VBool (match o with
+                   | CLt => x <? y | CLe => x <=? y | CGt => y <? x | CGe => y <=? x
+                   end)) st2
+      | _, _ => EUnsup
+      end)
+  | EMinMax mx a b =>
+    bin a b (fun v1 v2 st2 =>
+      match v1, v2 with
+      | VInt x, VInt y => EV (VInt (if mx then Z.max x y else Z.min x y)) st2
+      | _, _ => EUnsup
+      end)
   | EListLit xs =>
     match eval_list xs en st with
     | AV vs st1 => EV (VList vs) st1
@@ -1249,6 +1295,7 @@ Fixpoint exec_stmt (s : stmt) (en : env) (st : state) {struct s} : xres :=
     | EUnsup => XUnsup
     | EFuel => XFuel
     end
+  | SStoreItem _ _ => XUnsup
   | SReturn e =>
     match eval e en st with
     | EV v st1 => XReturn v st1
